@@ -155,9 +155,16 @@ func VerifC09Value() {
 	if !stringTyped || format != "uuid" {
 		v = verif.String("v", 6)
 	} else if verif.Bool("len36") {
-		// exactly 36 characters: five arbitrary groups and four arbitrary separators
-		v = verif.StringN("g1", 8, "") + verif.StringN("s1", 1, "") + verif.StringN("g2", 4, "") + verif.StringN("s2", 1, "") +
-			verif.StringN("g3", 4, "") + verif.StringN("s3", 1, "") + verif.StringN("g4", 4, "") + verif.StringN("s4", 1, "") + verif.StringN("g5", 12, "")
+		// exactly 36 characters: a well-formed uuid in which one or two positions (a hex
+		// position at a group boundary or in the middle, or a dash position) hold an arbitrary
+		// character — the emitted validator walks every character, so fully symbolic text of
+		// this length is out of reach
+		const tmpl = "01234567-89ab-cdEF-0123-456789abcdef"
+		pos := []int{0, 7, 8, 9, 13, 18, 22, 23, 24, 35}[verif.Choice("uuid.pos", 10)]
+		v = tmpl[:pos] + verif.StringN("uuid.char", 1, "") + tmpl[pos+1:]
+		if verif.Bool("uuid.second") {
+			v = v[:20] + verif.StringN("uuid.char2", 1, "") + v[21:]
+		}
 	} else if verif.Bool("len37") {
 		v = verif.StringN("long", 37, "")
 	} else {
@@ -185,8 +192,9 @@ func VerifC09Value() {
 		return
 	}
 	if kfUUID {
-		verif.Expect("KF-C09-uuid-format-accepts-non-hex", passed == want)
-		verif.Reach("C09/kf-uuid")
+		// 36 characters with the dashes in place but a non-hex digit (repaired in f44e6a0)
+		verif.Assert("C09/value/uuid-with-non-hex-digit-rejected", passed == want)
+		verif.Reach("C09/uuid-shape")
 		return
 	}
 	verif.Assert("C09/value/dispatch-iff-header-well-formed", passed == want)
